@@ -23,6 +23,8 @@ extern void (*_dispatch_verif_yield_cb)(const volatile void *addr, const char *f
 extern volatile void *_dispatch_verif_queue_state_addr(dispatch_queue_t dq);
 void dispatch_async_and_wait_f(dispatch_queue_t, void*, dispatch_function_t);
 void dispatch_barrier_async_and_wait_f(dispatch_queue_t, void*, dispatch_function_t);
+void dispatch_async_and_wait(dispatch_queue_t, dispatch_block_t);
+extern void _Block_release(const void *);
 #define NQ 2
 static dispatch_queue_t Q[NQ];
 typedef struct { uint64_t seq; int tid; int q; int off; int op; uint64_t o, n; const char *func; int line; } ev_t;
@@ -82,18 +84,22 @@ static void work_apply(void *c, size_t i){ (void)i; item_t *it=c; // apply invoc
   if (rnd()%4==0) sched_yield(); atomic_fetch_sub(&running[q],1); }
 static int nops, serial_only; static atomic_int expected;
 static void *client(void *a){ int me=(int)(intptr_t)a; dispatch_group_t g=dispatch_group_create();
-  for (int i=0;i<nops;i++){ int q = serial_only? 0 : (int)(rnd()%NQ); int k = (int)(rnd()%12); if (k==7 && rnd()%8) k=0;
+  for (int i=0;i<nops;i++){ int q = serial_only? 0 : (int)(rnd()%NQ); int k = (int)(rnd()%15); if (k==7 && rnd()%8) k=0;
     if (k==6){ dispatch_suspend(Q[q]); if (rnd()%2) sched_yield(); dispatch_resume(Q[q]); continue; }
     if (k==7){ int depth = (rnd()%3==0) ? 130 : 70; for (int j=0;j<depth;j++) dispatch_suspend(Q[q]); for (int j=0;j<depth;j++) dispatch_resume(Q[q]); continue; }
     if (k==11){ item_t tmp={ .q=q }; dispatch_apply_f(1+rnd()%4, Q[q], &tmp, work_apply); continue; }
     int idx=atomic_fetch_add(&nitems,1); if(idx>=MAXIT) break; item_t *it=&items[idx]; it->q=q; it->thread=me;
-    it->bar = (q==0) || k==1 || k==3 || k==9; it->sync = (k==2||k==3||k==8||k==9); it->kind=k;
+    int bflag = (k>=12) && (rnd()%2);      // block objects: with or without DISPATCH_BLOCK_BARRIER
+    it->bar = (q==0) || k==1 || k==3 || k==9 || bflag; it->sync = (k==2||k==3||k==8||k==9||k==12||k==13); it->kind=k;
     atomic_fetch_add(&expected,1);
     tl_overtake=0; tl_pre_open=0; atomic_store(&it->call, atomic_fetch_add(&clk,1)+1); mark("MARK_call", q, idx);
     switch(k){ case 1: dispatch_barrier_async_f(Q[q], it, work); break;
       case 2: dispatch_sync_f(Q[q], it, work); break; case 3: dispatch_barrier_sync_f(Q[q], it, work); break;
       case 8: dispatch_async_and_wait_f(Q[q], it, work); break; case 9: dispatch_barrier_async_and_wait_f(Q[q], it, work); break;
       case 10: dispatch_group_async_f(g, Q[q], it, work); break;
+      case 12: case 13: case 14: { dispatch_block_t bo=dispatch_block_create(bflag?DISPATCH_BLOCK_BARRIER:0, ^{ work(it); });
+        if(k==12) dispatch_async_and_wait(Q[q],bo); else if(k==13) dispatch_sync(Q[q],bo); else dispatch_async(Q[q],bo);
+        _Block_release(bo); break; }
       default: dispatch_async_f(Q[q], it, work); break; }
     for(int w=0;w<NQ;w++) win_close(w); mark("MARK_ret", q, idx); atomic_store(&it->ret, atomic_fetch_add(&clk,1)+1);
     if (it->sync && !atomic_load(&it->end)) fail("synchronous submission returned before its item finished: item/kind", idx, k, 0); }
@@ -134,10 +140,15 @@ static void oracle(void){ int n=atomic_load(&nitems); if(n>MAXIT) n=MAXIT;
 static void *watchdog(void *a){ (void)a; int last=-1, same=0; for(;;){ usleep(200000); int d=atomic_load(&done_items); if (d==last) same++; else same=0; last=d; if (same>=100){ // 20 s without progress
       printf("STUCK %d of %d items done: accepted work items never ran or synchronous submissions never returned (dq_state serial %016lx concurrent %016lx)\n", d, atomic_load(&expected),
         *(volatile uint64_t*)_dispatch_verif_queue_state_addr(Q[0]), *(volatile uint64_t*)_dispatch_verif_queue_state_addr(Q[1])); _dispatch_verif_atomic_cb=0; dump(); _exit(3);} } return 0; }
+#include <signal.h>
+static void on_crash(int sig){ char b[240]; int n=snprintf(b,sizeof b,"ORACLE VIOL seed=%llu the library trapped or crashed (signal %d) during the lane workload (a trap is the library's own ownership / corruption / over-release check firing)\n",(unsigned long long)seed,sig); if(n>0) (void)!write(1,b,(size_t)n); _exit(1); }
 int main(int argc, char **argv){
+  signal(SIGILL,on_crash); signal(SIGSEGV,on_crash); signal(SIGABRT,on_crash); signal(SIGBUS,on_crash);
   seed = argc>1 ? strtoull(argv[1],0,0) : 1; int nthr = argc>2 ? atoi(argv[2]) : 4; nops = argc>3 ? atoi(argv[3]) : 200; serial_only = argc>4 ? atoi(argv[4]) : 0;
   marks = getenv("TR_LANE_MARKS")!=NULL; evs = calloc(MAXEV, sizeof(ev_t)); items=calloc(MAXIT,sizeof(item_t));
-  Q[0] = dispatch_queue_create("s", DISPATCH_QUEUE_SERIAL); Q[1] = dispatch_queue_create("c", DISPATCH_QUEUE_CONCURRENT);
+  int chain = argc>5 ? atoi(argv[5]) : 0;     // 1: the serial queue targets the concurrent one (a hierarchy whose inner level is concurrent and not a root queue)
+  Q[1] = dispatch_queue_create("c", DISPATCH_QUEUE_CONCURRENT);
+  Q[0] = chain ? dispatch_queue_create_with_target("s", DISPATCH_QUEUE_SERIAL, Q[1]) : dispatch_queue_create("s", DISPATCH_QUEUE_SERIAL);
   for(int i=0;i<NQ;i++){ stateoff[i]=(long)((char*)_dispatch_verif_queue_state_addr(Q[i])-(char*)Q[i]); printf("Q %d width %d stateoff %ld\n", i, i==0?1:4094, stateoff[i]); }
   _dispatch_verif_yield_cb = ycb; _dispatch_verif_atomic_cb = cb;
   pthread_t wd; pthread_create(&wd,0,watchdog,0);
